@@ -254,7 +254,7 @@ CLAIMED = {
     ),
 }
 
-FUZZED = {"C04", "C05", "C06", "C11", "C12", "C18", "C19", "C20"}
+FUZZED = {"C01", "C02", "C03", "C04", "C05", "C06", "C07", "C08", "C10", "C11", "C12", "C13", "C14", "C15", "C18", "C19", "C20"}
 
 PENDING_REASON = "check not built yet in this session; the design (DESIGN.md section 3) claims it and it will be registered once it is quiet on the unchanged tree and catches its mutants"
 
